@@ -75,6 +75,13 @@ def risky_families():
         ("trace", ["trace", ["mat", "G"]]),
         ("Mv:sum", ["sum", ["Mv", ["mat", "A"], _y]]),
         ("mv:sum", ["sum", ["mv", X.Q3, _y]]),
+        ("mv:lc-over-quadratic", ["matmul", ["arr", [1.0, 2.0, 3.0]], ["mv", X.Q3, ["vpow", _xe, 2]]]),
+        ("mv:lc-over-nonpoly", ["matmul", ["arr", [1.0, 2.0, 3.0]], ["mv", X.Q3, ["vfn", "sin", _xe]]]),
+        ("mv:dot-with-quadratic", ["dot", _y, ["mv", X.Q3, ["vpow", _xe, 2]]]),
+        ("mv:qf-of-quadratic", ["qf", ["mv", X.Q3, ["vpow", _xe, 2]], X.Q3]),
+        ("mv:nested", ["sum", ["mv", X.Q3, ["mv", X.Q3, ["vpow", _xe, 3]]]]),
+        ("mv:el-of-nonlinear", ["el", ["mv", X.Q3, ["vfn", "exp", _xe]], 1]),
+        ("Mv:lc", ["matmul", ["arr", [1.0, -1.0]], ["Mv", ["mat", "A"], _y]]),
         ("norm2", ["norm", _y, 2]),
         ("sumsq", ["sum", ["vbin", "-", ["vpow", _xe, 2], _y]]),
     ]
